@@ -245,6 +245,7 @@ class C14Spec(c01.C01Spec):
         s['w_stranger'] = rng.choice([0.0, 0.01, 0.03])
         s['w_heal'] = 0.03
         cfg['stale_replace_phase'] = True
+        cfg['slow_connect_phase'] = rng.random() < 0.5
         if cfg['n_voters'] >= 3 and rng.random() < 0.5:
             conf['dynamicMembershipChange'] = True
             cfg['removal_phase'] = rng.choice(['up', 'down', 'down_restart_others', 'down_restart_others'])
@@ -434,6 +435,32 @@ class C14Spec(c01.C01Spec):
                             orc.flag('probe_not_delivered', 'hosts %d and %d (both followers of a steady leader) reported each other connected after %.1f s without traffic between them (connectionTimeout %.1f s); the first message from %d to %d was accepted by the transport but not delivered (delivered to %r)' % (
                                 x, y, idle, cfg['conf']['connectionTimeout'], a_, b_, orc.probes_got.get(p_)), dict(pair=[x, y], idle=True))
                             return
+        # phase 2d: a slow handshake.  The connection of one pair is reset; every new connect between the two takes longer
+        # than connectionTimeout to complete (lost SYNs) but does complete: the network allows the connection, the pair
+        # has to have it after a few such delays
+        if cfg.get('slow_connect_phase') and n >= 2:
+            import random as _random
+            r = _random.Random(w.seed * 17 + 3)
+            a = r.randrange(n)
+            b = r.choice([i for i in range(n) if i != a])
+            d, acc = (a, b) if w.hosts[a].addr > w.hosts[b].addr else (b, a)       # the greater address dials
+            delay = cfg['conf']['connectionTimeout'] * 1.25 + 0.2
+            w.slow_pairs = {(d, acc): delay}
+            for cid, c in list(w.net.conns.items()):
+                if (c.chost, c.shost) == (d, acc):
+                    apply([0.0, 'rst', cid, 0])
+            w.probe('slow_connect_phase')
+            if not rounds(4 * (delay + cfg['conf']['connectionRetryTime']) + 2 * cfg['conf']['raftMaxTimeout'] + 2.0):
+                return
+            ok = conn_state(w, d, acc) == (True, True) and conn_state(w, acc, d) == (True, True)
+            w.slow_pairs = None
+            if not ok:
+                orc.flag('pair_not_reconnected', 'every connect from host %d to host %d takes %.1f s to complete (connectionTimeout %.1f s) but does complete: after %.1f s the pair is still not connected (%r / %r)' % (
+                    d, acc, delay, cfg['conf']['connectionTimeout'], 4 * (delay + cfg['conf']['connectionRetryTime']) + 2 * cfg['conf']['raftMaxTimeout'] + 2.0,
+                    conn_state(w, d, acc), conn_state(w, acc, d)), dict(pair=[d, acc], slow=True))
+                return
+            if not rounds(1.0):
+                return
         # phase 3: a member is removed (while up, while down, or while down and the others were restarted since it was last
         # seen) and then runs again with its old configuration: nothing of it may reach the remaining members
         mode = cfg.get('removal_phase')
